@@ -270,6 +270,33 @@ pub fn run(tier: &str, seed: u64, out: &mut Out) {
         };
         out.case(&["valparse", "unq", "", &enc(&format!("{} />", x))], &got);
     }
+    // diagnostics of one binding: which of the binding parser's own diagnostics is raised (text node, exactly one `{{`)
+    let nq = if tier == "thorough" { 40_000 } else { 5_000 };
+    let mut diag_texts: Vec<String> = vec![];
+    for s in SNIPPETS.iter().chain(SNIPPETS2.iter()).chain(SNIPPETS3.iter()) {
+        diag_texts.push(format!("{{{{{}}}}}", s));
+        diag_texts.push(format!("{{{{{}", s));
+        diag_texts.push(format!("{{{{ {} }}}} t", s));
+    }
+    for _ in 0..nq {
+        let mut e = expr_text(&mut rng);
+        if rng.chance(1, 3) {
+            e = mutate_chars(&mut rng, &e);
+        }
+        let l = *rng.pick(&["", " ", "\n", "/* */"]);
+        let r = *rng.pick(&["", " ", " /* x */ ", " x", "/*"]);
+        let close = *rng.pick(&["}}", "}}", "}}", "}", "", "}} }", "}}t"]);
+        diag_texts.push(format!("{{{{{}{}{}{}", l, e, r, close));
+    }
+    for x in diag_texts {
+        if x[2..].contains("{{") || x.contains("</") {
+            continue;
+        }
+        let src = format!("<v>{}</v>", x);
+        let (_, ps) = glass_easel_template_compiler::parse::parse("p", &src);
+        let kinds: Vec<String> = ps.warnings().map(|w| format!("{:?}", w.kind)).collect();
+        out.case(&["valparse", "diag", "", &enc(&format!("{}</v>", &x[2..]))], &kinds.join(","));
+    }
     for x in texts {
         // text node
         if !x.contains("</") {
